@@ -16,11 +16,13 @@ func VF_C17_Snapshot(n, kindmut int) {
 	v := vf.Int("v")
 	var it age.IteratorLike[int]
 	var expect []int
+	var fresh func() (age.IteratorLike[int], []int)
 	vf.Budget(8 * listBudget)
 	switch kind {
 	case 0:
 		a := newArr(xs)
 		it = a.GetIterator()
+		fresh = func() (age.IteratorLike[int], []int) { return a.GetIterator(), a.AsArray() }
 		expect = xs
 		if n == 0 {
 			break
@@ -42,6 +44,7 @@ func VF_C17_Snapshot(n, kindmut int) {
 	case 1:
 		l := newList(xs)
 		it = l.GetIterator()
+		fresh = func() (age.IteratorLike[int], []int) { return l.GetIterator(), l.AsArray() }
 		expect = xs
 		switch mut {
 		case 0:
@@ -71,6 +74,7 @@ func VF_C17_Snapshot(n, kindmut int) {
 		s := col.Set[int](nil).MakeFromArray(xs)
 		expect = s.AsArray()
 		it = s.GetIterator()
+		fresh = func() (age.IteratorLike[int], []int) { return s.GetIterator(), s.AsArray() }
 		switch mut {
 		case 0:
 			s.AddValue(v)
@@ -83,6 +87,7 @@ func VF_C17_Snapshot(n, kindmut int) {
 		s := col.Stack[int](nil).MakeFromArray(xs)
 		expect = xs
 		it = s.GetIterator()
+		fresh = func() (age.IteratorLike[int], []int) { return s.GetIterator(), s.AsArray() }
 		switch mut {
 		case 0:
 			s.AddValue(v)
@@ -97,6 +102,7 @@ func VF_C17_Snapshot(n, kindmut int) {
 		q := col.Queue[int](nil).MakeFromArray(xs)
 		expect = xs
 		it = q.GetIterator()
+		fresh = func() (age.IteratorLike[int], []int) { return q.GetIterator(), q.AsArray() }
 		switch mut {
 		case 0:
 			q.AddValue(v)
@@ -111,6 +117,10 @@ func VF_C17_Snapshot(n, kindmut int) {
 	vf.BudgetReset()
 	vf.Assert("iterator-size-frozen", it.GetSize() == len(expect))
 	vf.Assert("iterator-yields-snapshot", eqInts(iterInts(it), expect))
+	// an iterator obtained after the mutation enumerates the collection as it is now
+	it2, cur := fresh()
+	vf.Assert("new-iterator-size-is-current", it2.GetSize() == len(cur))
+	vf.Assert("new-iterator-yields-current-contents", eqInts(iterInts(it2), cur))
 	vf.Reach("end")
 }
 
